@@ -12,6 +12,13 @@ Check (C13_exactly_one :
     quiescent (fst (fst res)) ->
     In (OSent r) (snd res) ->
     terms r (snd res) = 1%nat \/ In r (cancel_reqs evs)).
+Check (C13_exactly_one_contract :
+  forall (cf : cfg) (evs : list ev) (r : N),
+    0 < tmo cf ->
+    let res := run cf (init_pst, init_env) evs in
+    discharged (grun cf g0 (run_steps cf (init_pst, init_env) evs)) ->
+    In (OSent r) (snd res) ->
+    terms r (snd res) = 1%nat \/ In r (cancel_reqs evs)).
 Check (C13_exactly_one_settled :
   forall (cf : cfg) (evs : list ev) (r : N),
     let res := run cf (init_pst, init_env) evs in
